@@ -282,7 +282,6 @@ pub fn flate_decode(data: &[u8], params: &LZWFlateParams) -> Result<Vec<u8>> {
     let predictor = params.predictor as usize;
     let n_components = params.n_components as usize;
     let columns = params.columns as usize;
-    let stride = columns * n_components;
 
 
     // First flate decode
@@ -300,7 +299,18 @@ pub fn flate_decode(data: &[u8], params: &LZWFlateParams) -> Result<Vec<u8>> {
     // For this, take the old out as input, and write output to out
 
     if predictor >= 10 {
+        if params.n_components < 1 || params.columns < 1 {
+            bail!("invalid predictor parameters: Colors={}, Columns={}", params.n_components, params.columns);
+        }
+        let stride = match columns.checked_mul(n_components) {
+            Some(stride) => stride,
+            None => bail!("invalid predictor parameters: Colors={}, Columns={}", params.n_components, params.columns)
+        };
         let inp = decoded; // input buffer
+        if stride >= inp.len() {
+            // not even one complete row
+            return Ok(Vec::new());
+        }
         let rows = inp.len() / (stride+1);
         
         // output buffer
